@@ -23,6 +23,11 @@ theorem C14_responder_exits_tie :
     Generated.httpRespondExits.2.1 = 0 ∧ Generated.httpRespondExits.2.2.1 = 0 ∧
     Generated.httpRespondExits.2.2.2.1 ≤ 6 ∧ Generated.httpRespondExits.2.2.2.2 = 0 := by decide
 
+/-- (tie) every accepted request is handed to the responder (unbounded channel, blocking send): the model answers every
+request; publications replace what was served (`serve_*` insert) -/
+theorem C14_handover_tie :
+    Generated.httpEveryRequestReachesResponder = true ∧ Generated.httpServeOverwrites = true := by decide
+
 /-- **published ⇒ 200, identical body, Content-Length iff below the transfer limit** — for every cache
 state, class, 16-byte id and body, on the path `serve_*` advertised -/
 theorem C14_route_published (mt : Nat) (c : Caches) (cl : Class) (id bin : List UInt8)
